@@ -39,8 +39,10 @@ Fixpoint rm_chain (G : gram) (ps : list prod) (a b : list sym) : Prop :=
 Definition rightmost_reverse (G : gram) (ps : list prod) (w : list nat) : Prop :=
   rm_chain G (rev ps) [Nt (start G)] (map Tm w).
 
-(** the state stack (top first) spells the symbols [xs] (top first) along certified edges from state 0 *)
+(** the state stack (top first) spells the symbols [xs] (top first) along certified shift/goto
+    entries of the table, starting from state 0 *)
 Inductive path (tbl : table) (lbl : list (list sym)) : list Z -> list sym -> Prop :=
 | path_nil : path tbl lbl [0%Z] []
 | path_cons t s st X xs :
-    path tbl lbl (s :: st) xs -> edge_ok tbl lbl s X t = true -> path tbl lbl (t :: s :: st) (X :: xs).
+    path tbl lbl (s :: st) xs -> edge_ok tbl lbl s X t = true -> In (s, X, t) (edges tbl) ->
+    path tbl lbl (t :: s :: st) (X :: xs).
